@@ -198,6 +198,59 @@ def r4_cache_keys(ctx, F):
         ctx.violation("cache-keys", ins.loc(), "ProcedureCache::insert must key by MAST root and by procedure id")
 
 
+def r5_alias_flattening(ctx, F):
+    """ProcedureCache::get_by_id resolves an alias with a single hop (proc_aliases -> proc_id_map), so insert_proc_alias must
+    store a key of proc_id_map for every alias, also when the aliased procedure is itself an alias (re-export of a re-export)"""
+    from .mirsym import Interp, Agg, Term, Ptr, Opaque, deref, Unanalysable, PanicReached
+    fn = F.fn(r"^miden_assembly::assembler::procedure_cache::ProcedureCache::insert_proc_alias$")
+    adt = F.adt(r"^miden_assembly::assembler::procedure_cache::ProcedureCache$")
+    fields = [f["name"] for f in adt["variants"][0]["fields"]]
+    ctx.floor("procedure-cache-maps", len([f for f in fields if f in ("proc_id_map", "proc_aliases", "procedures")]), 3)
+
+    class Map(Opaque):
+        def __init__(self, name, d):
+            Opaque.__init__(self, name)
+            self.d = dict(d)
+    key = lambda x: repr(deref(x))
+    for scenario in ("direct", "alias-of-alias"):
+        ctx.inst(key="insert_proc_alias|%s" % scenario, nontrivial=True)
+        ids = {"alias": Term("ALIAS"), "ref": Term("REF"), "base": Term("BASE")}
+        pim = Map("proc_id_map", {repr(ids["ref"]): Term("root_ref")} if scenario == "direct" else {repr(ids["base"]): Term("root_base")})
+        pal = Map("proc_aliases", {} if scenario == "direct" else {repr(ids["ref"]): ids["base"]})
+        I = Interp(F)
+        add = lambda rx, m: I.overrides.append((re.compile(rx), m))
+        some = lambda v: Agg([v], "adt", "core::option::Option", "Some")
+        none = lambda: Agg([], "adt", "core::option::Option", "None")
+        add(r"btree::map::BTreeMap::contains_key$", lambda I, a, f: key(a[1]) in deref(a[0]).d)
+        add(r"btree::map::BTreeMap::get$", lambda I, a, f: some(Ptr([deref(a[0]).d[key(a[1])]], 0)) if key(a[1]) in deref(a[0]).d else none())
+
+        def ins(I, a, f):
+            m = deref(a[0])
+            old = m.d.get(key(a[1]))
+            m.d[key(a[1])] = a[2]
+            return some(old) if old is not None else none()
+        add(r"btree::map::BTreeMap::insert$", ins)
+        add(r"AssemblyError::duplicate_proc_id$", lambda I, a, f: Opaque("duplicate_proc_id"))
+        selfv = Agg([{"proc_id_map": pim, "proc_aliases": pal}.get(n, Opaque(n)) for n in fields], "adt", adt["id"], adt["variants"][0]["name"])
+        try:
+            res = I.call(fn.id, [Ptr([selfv], 0), ids["alias"], ids["ref"]])
+        except (Unanalysable, PanicReached) as e:
+            ctx.violation("UNANALYSABLE|insert_proc_alias|%s" % scenario, fn.loc(), str(e)[:300])
+            continue
+        stored = pal.d.get(repr(ids["alias"]))
+        ok = isinstance(res, Agg) and res.variant == "Ok" and stored is not None and repr(stored) in pim.d
+        ctx.oblig(ok)
+        ctx.sample({"scenario": scenario, "stored_for_alias": repr(stored), "proc_id_map_keys": sorted(pim.d)})
+        if not ok:
+            ctx.violation("alias-not-flattened|%s" % scenario, fn.loc(), "insert_proc_alias(%s) stores %s for the new alias, which is not a key of proc_id_map (%s): get_by_id follows one hop only, so a later lookup of the alias panics ('missing MAST root') instead of finding the procedure"
+                          % ("alias of a direct procedure" if scenario == "direct" else "alias of an alias", repr(stored), sorted(pim.d)))
+    # get_by_id: a single hop
+    g = F.fn(r"^miden_assembly::assembler::procedure_cache::ProcedureCache::get_by_id$")
+    hops = len(g.calls_to(r"BTreeMap::get$")) + sum(len(F.fns[c].calls_to(r"BTreeMap::get$")) for c in F.fns if c.startswith(g.id + "::{closure"))
+    ctx.inst(key="get_by_id", nontrivial=True)
+    ctx.analysed("get_by_id performs %d map lookups (direct, alias, alias target, procedure)" % hops)
+
+
 def run(ctx, F):
     ctx.trusted += ["rustc MIR via mirfacts", "lowering extractor for the parameter paths"]
     ctx.assumptions += ["equality of programs across compilation histories is not decided; the rules decide that callsets are closed under every registration path, "
@@ -206,3 +259,4 @@ def run(ctx, F):
     ctx.run_rule("C11-R2", "rejection sites: each listed invalid construct has a reachable rejecting path", r2_rejections, F)
     ctx.run_rule("C11-R3", "no compiler-inserted arithmetic check on an instruction parameter before its validation", r3_no_panic_in_validation, F)
     ctx.run_rule("C11-R4", "procedure cache keyed by MAST root and id with a rejecting path for conflicts", r4_cache_keys, F)
+    ctx.run_rule("C11-R5", "procedure aliases are stored flattened: the value stored for an alias is always a key of proc_id_map (re-export chains resolve with one hop)", r5_alias_flattening, F)
